@@ -162,13 +162,13 @@ def make_jobs(tier, seed):
     for i in range(0, len(names), chunk):
         jobs.append({'names': names[i:i + chunk], 'seed': rng.randrange(1 << 30), 'mode': 'bc',
                      'nparams': 5 if tier == 'quick' else 30, 'n': 160,
-                     'kinds': ['walk', 'spikes', 'gappy'] if tier == 'quick' else ['walk', 'trend', 'flat', 'spikes', 'alternating', 'gappy', 'lattice'],
+                     'kinds': ['walk', 'spikes', 'gappy', 'zerovol'] if tier == 'quick' else ['walk', 'trend', 'flat', 'spikes', 'alternating', 'gappy', 'lattice', 'zerovol', 'tiny'],
                      'want_sample': i == 0})
     if tier == 'thorough':
         for rep, n_ in enumerate([120, 200, 260, 330, 160, 500]):
             for i in range(0, len(names), chunk):
                 jobs.append({'names': names[i:i + chunk], 'seed': rng.randrange(1 << 30), 'mode': 'bc', 'nparams': 40, 'n': n_,
-                             'kinds': ['walk', 'trend', 'flat', 'spikes', 'alternating', 'gappy', 'lattice']})
+                             'kinds': ['walk', 'trend', 'flat', 'spikes', 'alternating', 'gappy', 'lattice', 'zerovol', 'tiny']})
         for i in range(0, len(names), chunk):
             jobs.append({'names': names[i:i + chunk], 'seed': rng.randrange(1 << 30), 'mode': 'bc', 'nparams': 4, 'n': 400,
                          'kinds': ['walk', 'trend', 'spikes']})
